@@ -84,6 +84,12 @@ func (w *World) writerPaths(fn *ssa.Function) *writerInfo {
 			}
 		},
 		onInstr: func(fr *pxFrame, in ssa.Instruction, st *pxState) bool {
+			if ta, ok := in.(*ssa.TypeAssert); ok && ta.CommaOk {
+				// a dynamic-type test of a value (the struct writer's `.(time.Time)`): rules
+				// about what is recognised before what read it from the path
+				st.trace = append(st.trace, pxEvent{Kind: "typetest", Frame: fr, Args: []*Term{px.term(ta.X, fr, st)}, Env: st.env, Pos: w.instrPos(ta), Extra: typeStr(ta.AssertedType)})
+				return true
+			}
 			c, ok := in.(*ssa.Call)
 			if !ok {
 				return true
@@ -116,6 +122,24 @@ func (w *World) writerPaths(fn *ssa.Function) *writerInfo {
 					ev.Args = append(ev.Args, bs.Oct...)
 					if bs.Open {
 						ev.Extra = "open"
+					}
+					// a slice whose octets are all known is what the variadic byte writer
+					// hands on: `writeBytes([]byte{tag})` and `writeBT(tag)` are one emission
+					known := len(bs.Oct) > 0 && !bs.Open
+					for _, o := range bs.Oct {
+						if o == nil {
+							known = false
+						}
+					}
+					if known {
+						ev.Kind = "octets"
+					}
+				} else if o := st.originOf(px.term(args[0], fr, st)); o != nil && encodeKindOf(bounds, o) != "" {
+					// the result of a scalar encoder, whatever variable or cell carried it here
+					ev.Kind = "scalar:" + encodeKindOf(bounds, o)
+					ev.Args = append(ev.Args, o.Args...)
+					for range o.Args {
+						ev.Orig = append(ev.Orig, nil)
 					}
 				} else if ac, ok := args[0].(*ssa.Call); ok && ac.Call.StaticCallee() != nil {
 					if k2, ok := bounds[ac.Call.StaticCallee()]; ok && strings.HasPrefix(k2, "encode:") {
@@ -257,4 +281,16 @@ func (w *World) writerPaths(fn *ssa.Function) *writerInfo {
 func (w *World) evalEv(t *Term, env Env) (ISet, evalFlags) {
 	px := w.newPX(pxHooks{})
 	return px.evalTerm(t, &pxState{env: env})
+}
+
+// encodeKindOf: o is the recorded call of a scalar encoder (boundary "encode:<codec>"): the codec name.
+func encodeKindOf(bounds map[*ssa.Function]string, o *Term) string {
+	c, ok := o.V.(*ssa.Call)
+	if !ok || c.Call.StaticCallee() == nil {
+		return ""
+	}
+	if k, ok := bounds[c.Call.StaticCallee()]; ok && strings.HasPrefix(k, "encode:") {
+		return strings.TrimPrefix(k, "encode:")
+	}
+	return ""
 }
